@@ -1,4 +1,5 @@
 """Rule-engine plumbing: context, call wrapper, closure capture resolution, results."""
+import os
 import re
 from collections import defaultdict
 
@@ -75,6 +76,17 @@ class Call:
 
     def where(self):
         return self.body.where(self.loc)
+
+    def fn_value_args(self):
+        """bodies of griddle functions passed by name (as values) to this call, e.g. `.map(OldTable::into_unmoved)`"""
+        out = []
+        for a in self.args:
+            if a["k"] == "const" and a.get("fn"):
+                want = strip_generics(a["fn"])
+                for b in self.ctx.facts.bodies.values():
+                    if b.kind != "Closure" and strip_generics(b.path) == want:
+                        out.append(b)
+        return out
 
     def closure_args(self):
         """closure bodies passed (directly) as arguments of this call"""
@@ -252,3 +264,115 @@ class Ctx:
 
 def in_macro(span, *names):
     return any(m in names or m.split("::")[-1] in names for m in span["macros"])
+
+
+# ---------------------------------------------------------------------------
+# running a rule, with equivalent views of the program as fallback (inline.py)
+# ---------------------------------------------------------------------------
+NO_VIEW_RULES = {"W-witness", "X-contract", "F-diff", "V-own", "V-unsafe", "V-impl", "RO-layout"}
+
+
+def _apply(ctx, rid):
+    import importlib
+    import traceback
+    import registry
+    mod, fn = registry.RULES[rid].split(".")
+    m = importlib.import_module(mod)
+    try:
+        return getattr(m, fn)(ctx)
+    except AnalysisError as e:
+        R = RuleResult(rid, "(anchor not found)")
+        R.anchor("anchor", str(e))
+        return R
+    except Exception:
+        R = RuleResult(rid, "(rule crashed)")
+        R.anchor("crash", "rule %s raised: %s" % (rid, traceback.format_exc()[-1500:]))
+        return R
+
+
+def view_ctx(ctx, policy):
+    """Ctx over the view of ctx's program in which private helpers are inlined (None when the view equals the program)"""
+    views = ctx.__dict__.setdefault("_views", {})
+    if policy not in views:
+        import inline
+        try:
+            f2, done = inline.build_view(ctx.facts, policy, roles=ctx.roles)
+        except Exception:
+            import traceback
+            import sys
+            sys.stderr.write("view %s could not be built: %s\n" % (policy, traceback.format_exc()[-600:]))
+            f2, done = None, []
+        c2 = None
+        if f2 is not None:
+            try:
+                c2 = Ctx(f2, repo=ctx.repo, tier=ctx.tier, others=ctx.others)
+                for k in ("verif", "hashbrown_versions"):
+                    if hasattr(ctx, k):
+                        setattr(c2, k, getattr(ctx, k))
+                c2.view = policy
+                c2.inlined = done
+            except AnalysisError:
+                c2 = None
+        views[policy] = c2
+    return views[policy]
+
+
+def _body_of_key(ctx, key):
+    """the griddle function a violation key is about (longest body path occurring as a ':'-delimited component of the key)"""
+    best = None
+    for p in ctx.facts.bodies:
+        if (":" + p + ":") in (key + ":") and (best is None or len(p) > len(best)):
+            best = p
+    return best
+
+
+def run_rule(ctx, rid, cache=None, views=True):
+    """Run a rule; when it reports violations, re-run it on the inlined views and accept the first view on which it holds
+    (inlining preserves behaviour, so a rule that holds on a view holds on the program)."""
+    if cache is not None and rid in cache:
+        return cache[rid]
+    R = _apply(ctx, rid)
+    if R.violations and views and rid not in NO_VIEW_RULES and not getattr(ctx, "view", None):
+        import inline
+        remaining = list(R.violations)
+        discharged = []
+        for policy in inline.VIEWS:
+            c2 = view_ctx(ctx, policy)
+            if c2 is None:
+                continue
+            R2 = _apply(c2, rid)
+            if R2.violations and os.environ.get("DEBUGVIEWS"):
+                import sys
+                for v in R2.violations:
+                    sys.stderr.write("      [view %s] %s @ %s\n            %s\n" % (policy, v.key, v.where, v.why[:300]))
+            if not R2.violations:
+                R2.notes.append("decided on the view of the program in which %d calls of private helper functions are inlined (policy `%s`); "
+                                "on the program as written the rule reported: %s" % (len(c2.inlined), policy, "; ".join(v.key for v in R.violations[:4])))
+                R2.view = policy
+                R = R2
+                remaining = None
+                break
+            # obligation by obligation: a violation reported for a function on the program as written is discharged by a view in which
+            # that same function (now containing its helpers' code) still exists, the rule found its anchors, and the rule does not
+            # report that obligation; the view's own reports about functions the rule accepted as written are discharged the same way
+            if any(v.key.startswith("ANCHOR:") for v in R2.violations):
+                continue
+            k2 = {v.key for v in R2.violations}
+            keep = []
+            for v in remaining:
+                bp = _body_of_key(ctx, v.key)
+                if not v.key.startswith("ANCHOR:") and v.key not in k2 and bp is not None and bp in c2.facts.bodies:
+                    discharged.append((v.key, policy))
+                else:
+                    keep.append(v)
+            remaining = keep
+            if not remaining:
+                break
+        if remaining is not None and not remaining:
+            R.notes.append("obligations reported on the program as written and discharged on an inlined view of the same function: %s"
+                           % "; ".join("%s [%s]" % d for d in discharged[:8]))
+            R.violations = []
+            R.view = "+".join(sorted({p for _, p in discharged}))
+    if cache is not None:
+        cache[rid] = R
+    return R
